@@ -455,7 +455,8 @@ class RealBackend(object):
         if v is None:
             hs = self.hash_vals.get("order")
             if hs:
-                v = hs[(kind * 7 + gen) % len(hs)] * 1000 + self.nhash
+                # the low bits decide the slot in a small set's table, i.e. the iteration order
+                v = self.nhash * 8 + hs[(kind * 7 + gen) % len(hs)] % 8
             else:
                 v = self.nhash
         return v
